@@ -73,7 +73,8 @@ extern int mpt_convert_string(const char *from, MPT_TYPE(type) type, void *dest)
 		while (isspace(*txt)) {
 			++txt;
 		}
-		if ((len = mpt_convert_number(txt, type, dest)) < 0) {
+		/* error or nothing converted: no characters consumed */
+		if ((len = mpt_convert_number(txt, type, dest)) <= 0) {
 			return len;
 		}
 		txt += len;
